@@ -15,6 +15,7 @@ structure Tr where
   sqrtQ : Rat → Rat
   logQ : Rat → Rat
   expQ : Rat → Rat
+  cbrtQ : Rat → Rat
 
 namespace Tr
 
@@ -26,6 +27,13 @@ def sqrt (T : Tr) : XR → XR
 
 def log (T : Tr) : XR → XR
   | .fin q => if q < 0 then .nan else if q = 0 then .ninf else .fin (T.logQ q)
+  | .pinf => .pinf
+  | .ninf => .nan
+  | .nan => .nan
+
+/-- `x ** (1.0/3)`: NaN for negatives (NumPy float power) -/
+def cbrt (T : Tr) : XR → XR
+  | .fin q => if q < 0 then .nan else .fin (T.cbrtQ q)
   | .pinf => .pinf
   | .ninf => .nan
   | .nan => .nan
@@ -44,6 +52,9 @@ structure Lawful (T : Tr) : Prop where
   sqrt_mono : ∀ p q, 0 ≤ p → p ≤ q → T.sqrtQ p ≤ T.sqrtQ q
   log_one : T.logQ 1 = 0
   log_lt : ∀ p q, 0 < p → p < q → T.logQ p < T.logQ q
+  cbrt_zero : T.cbrtQ 0 = 0
+  cbrt_nonneg : ∀ q, 0 ≤ q → 0 ≤ T.cbrtQ q
+  exp_zero : T.expQ 0 = 1
 
 end Tr
 end VerifModel
